@@ -382,20 +382,69 @@ def case_sequence(c):
     return {'viol': viol, 'n': len(c['steps']), 'nontrivial': [engine.sha(c)], 'outcomes': ['seq/%s' % outs]}
 
 
+def case_restem(c):
+    """Histories on the FILE side: a stem is recorded, read by every reader, removed, recorded again with another
+    configuration (other blocks-per-file, block count, orientation, user cards) and read again: every reader must describe
+    the files that are on disk now."""
+    from setigen.voltage import raw_utils
+    viol = []
+
+    def V(failure, detail, site):
+        viol.append({'site': site, 'failure': failure, 'detail': detail})
+    wd = engine.workdir()
+    stem = os.path.join(wd, 'c04r_%s' % engine.sha(c))
+    n = 0
+    for step, st in enumerate(c['steps']):
+        for fn in guppi.list_files(stem):
+            os.remove(fn)
+        cfg = _cfg(dict(bpf=st['bpf'], asc=st['asc'], fch1=st['fch1'], start_chan=st['start_chan'], num_chans=st['num_chans'],
+                        P=8, npol=st['npol'], source=st['source']))
+        be, src, dig, fb, rq = vharness.make_backend(cfg, seed=3 + step)
+        hd = {'STEPKEY': step, 'DIRECTIO': st['dio']}
+        be.record(output_file_stem=stem, num_blocks=st['nb'], length_mode='num_blocks', header_dict=hd, load_template=False, verbose=False)
+        files = guppi.list_files(stem)
+        parsed = [guppi.parse_file(fn) for fn in files]
+        tag = 'recording %d (%s) to a stem used before' % (step, st) if step else 'first recording'
+        try:
+            rh = raw_utils.read_header(files[0])
+            if str(rh.get('STEPKEY', '')).strip() != str(step) or int(rh['OBSNCHAN']) != st['num_chans'] * vharness.nants_of(cfg):
+                V('stale', '%s: read_header returns STEPKEY=%r OBSNCHAN=%r' % (tag, rh.get('STEPKEY'), rh.get('OBSNCHAN')), 'raw_utils.read_header')
+            if raw_utils.get_blocks_per_file(stem) != len(parsed[0]):
+                V('stale', '%s: get_blocks_per_file=%r, first file holds %d' % (tag, raw_utils.get_blocks_per_file(stem), len(parsed[0])),
+                  'raw_utils.get_blocks_per_file')
+            if raw_utils.get_total_blocks(stem) != st['nb']:
+                V('stale', '%s: get_total_blocks=%r, files hold %d' % (tag, raw_utils.get_total_blocks(stem), st['nb']), 'raw_utils.get_total_blocks')
+            for fi, fn in enumerate(files):
+                if raw_utils.get_blocks_in_file(fn) != len(parsed[fi]):
+                    V('stale', '%s: get_blocks_in_file(%s)=%r, file holds %d' % (tag, os.path.basename(fn), raw_utils.get_blocks_in_file(fn), len(parsed[fi])),
+                      'raw_utils.get_blocks_in_file')
+            rp = raw_utils.get_raw_params(stem, start_chan=st['start_chan'])
+            chan_bw = cfg['sample_rate'] / cfg['P'] * (1 if st['asc'] else -1)
+            if bool(rp['ascending']) != bool(st['asc']) or abs(rp['fch1'] - st['fch1']) > 1e-9 * max(abs(st['fch1']), abs(chan_bw)) \
+                    or rp['num_chans'] != st['num_chans'] or rp['num_pols'] != st['npol']:
+                V('stale', '%s: get_raw_params -> %s' % (tag, {k: rp[k] for k in ('ascending', 'fch1', 'num_chans', 'num_pols')}), 'raw_utils.get_raw_params')
+        except Exception as e:
+            V('raised', '%s: %s: %s' % (tag, type(e).__name__, e), 'raw_utils')
+        n += 1
+    for fn in guppi.list_files(stem):
+        os.remove(fn)
+    return {'viol': viol, 'n': n, 'nontrivial': [engine.sha(c)], 'outcomes': ['restem/%d' % len(c['steps'])]}
+
+
 def run(ctx):
     T = ctx.tier == 'thorough'
     cases = []
     # Box A: header framing -- every header length modulo 32 cards
-    for n_user in range(0, 41):
+    for n_user in range(0, 81 if T else 41):
         for dio in ('absent', '0', '1', 's1') + (('s0',) if T else ()):
             for template in (False, True):
                 for source in ('ant', 'arr2'):
-                    for off in ((0, 3, 6) if T else (0, 4)):
+                    for off in ((0, 1, 2, 3, 4, 5, 6, 7, 8) if T else (0, 4)):
                         cases.append(dict(box='A', n_user=n_user, kind_off=off, directio=dio, template=template,
                                           source=source, num_blocks=2, bpf=2, bits=8, perms=False))
     # Box B: block / file distribution and every listing permutation
-    max_files = 5 if T else 4
-    for nb in range(1, 6):
+    max_files = 6 if T else 4
+    for nb in range(1, 7 if T else 6):
         for bpf in (1, 2, 3):
             if -(-nb // bpf) > max_files:
                 continue
@@ -439,6 +488,21 @@ def run(ctx):
                 for c3 in settings[::3]:
                     seqs.append(dict(box='E', steps=[list(a), list(b), list(c3)], source='arr2'))
     ctx.pmap(case_sequence, seqs)
+    # Box F: the same stem recorded twice (three times in thorough) with different configurations
+    confs = [dict(bpf=2, nb=3, asc=True, fch1=0.0, start_chan=0, num_chans=2, npol=2, source='ant', dio=1),
+             dict(bpf=3, nb=5, asc=False, fch1=6e9, start_chan=1, num_chans=3, npol=1, source='ant', dio=0),
+             dict(bpf=1, nb=2, asc=True, fch1=1e6, start_chan=2, num_chans=1, npol=2, source='arr2', dio=1),
+             dict(bpf=4, nb=4, asc=False, fch1=512.0, start_chan=0, num_chans=4, npol=2, source='ant', dio=0)]
+    res = []
+    for a in confs:
+        for b in confs:
+            if a is not b:
+                res.append(dict(box='F', steps=[a, b]))
+                if T:
+                    for c3 in confs:
+                        if c3 is not b:
+                            res.append(dict(box='F', steps=[a, b, c3]))
+    ctx.pmap(case_restem, res)
     return ctx.finish(
         rule='complete enumeration of box A (user cards 0..40 x DIRECTIO setting x template x source x value-kind '
              'rotation), box B (num_blocks 1..5 x blocks_per_file 1..3 x source x bits x DIRECTIO x template x '
@@ -447,5 +511,5 @@ def run(ctx):
              'reader, so every case is non-trivial; distinct = distinct parameter tuples',
         assumptions=['user cards are valid 80-byte cards (keys <= 8 chars, values that fit)',
                      'tiny blocks (4..32 samples per block)', 'NPOL may be written as 2 or 4 for dual polarisation'],
-        coverage_extra={'bounds': {'n_user_cards': '0..40', 'max_files_permuted': max_files,
+        coverage_extra={'bounds': {'n_user_cards': '0..80' if T else '0..40', 'max_files_permuted': max_files,
                                    'value_kinds': [k for k, _ in VALUE_KINDS], 'owned': OWNED}})
